@@ -1005,8 +1005,8 @@ theorem Sparse.setSubscripts_refines {S : Sparse α} {m : MArr α} (h : SRel S m
 
 /-! ### reads through `extract` -/
 
-theorem extract_lookup {S : Sparse α} (hS : S.WF) (r : List Nat) : S.lookup r = S.get r := by
-  unfold Sparse.lookup
+theorem extract_lookup {S : Sparse α} (hS : S.WF) (r : List Nat) : S.lookupIx r = S.get r := by
+  unfold Sparse.lookupIx
   cases hl : lastIdxOfN S.subs r with
   | none => exact (Sparse.get_of_not_mem S r (lastIdxOfN_eq_none.1 hl)).symm
   | some k =>
